@@ -5,8 +5,15 @@
   This file covers the portable code of /repo/sm4/sm4.go (`cryptoBlock`, `cryptoBlockX2`, `ss`, `ssX2`,
   `tau`, `transTPrime`, `expandKey`, `NewCipher`'s length test) through its executable model
   `SMGo.Model.SM4` instantiated with the tables regenerated from sm4_const.go (`genTables`).
-  The correspondence model ↔ Go code is tested by the differential harness (bin/check C05), which also
-  covers the accelerated kernels; those are not modelled here.  The table facts of property C18
+  The correspondence model ↔ Go code is tested by the differential harness (bin/check C05).
+  The accelerated amd64 path is covered at the level of the regenerated assembler listings, run by the value
+  semantics of SMGo/Model/ISAVal.lean (section "Assembly listings" at the end of this file): `cryptoBlockAsm` and
+  `expandKeyAsm` — the only two routines Encrypt/Decrypt/NewCipher use on amd64 — are proved equal to the
+  specification for all inputs (`asm_cryptoBlockAsm_eq_spec`, `asm_expandKeyAsm_eq_spec`, `C05_asm_amd64`); the wide
+  kernels X2/X4/X8/X16 have their 32 rounds proved on every lane (`asm_rounds_all_lanes`) but their prologue /
+  epilogue (rev32 per lane, 4×4 transposes, stores) only tested; the harness compares all of them three-way
+  (CPU / interpreted listing / specification).  The arm64 kernels are compared by the harness only.
+  The table facts of property C18
   (S-box = algebraic S-box, T-tables = L ∘ S-box, CK/FK formulas) are restated below; they are
   kernel-checked against the generated file in SMGo/Proofs/SM4Tables.lean.
 -/
@@ -56,6 +63,39 @@ theorem encrypt_decrypt (key blk : Bytes) (_hk : key.length = 16) (hb : blk.leng
 /-- the S-box table of sm4_const.go is the algebraic S-box (affine ∘ inversion in GF(2^8) ∘ affine) -/
 theorem sbox_alg : Gen.SM4Const.sbox = (List.range 256).map Spec.SM4.sboxAlg :=
   Proofs.SM4.sbox_alg
+
+/-- (audit C05-5) the inversion used by the algebraic S-box of the specification really is the inverse in
+    GF(2)[x]/(x^8+x^7+x^6+x^5+x^4+x^2+1): `gfInv x = x^254` satisfies `x · gfInv x = 1` for every non-zero byte,
+    and `gfInv 0 = 0` -/
+theorem gfInv_spec : (∀ x, x < 256 → x ≠ 0 → Spec.SM4.gfMul x (Spec.SM4.gfInv x) = 1) ∧ Spec.SM4.gfInv 0 = 0 := by
+  decide +kernel
+
+/-- (audit C05-5) the S-box as the table of GB/T 32907-2016 (6.2, row = high nibble, column = low nibble), typed in
+    here from the standard and NOT taken from /repo/sm4/sm4_const.go -/
+def stdSbox : List Nat :=
+  [0xd6, 0x90, 0xe9, 0xfe, 0xcc, 0xe1, 0x3d, 0xb7, 0x16, 0xb6, 0x14, 0xc2, 0x28, 0xfb, 0x2c, 0x05,
+   0x2b, 0x67, 0x9a, 0x76, 0x2a, 0xbe, 0x04, 0xc3, 0xaa, 0x44, 0x13, 0x26, 0x49, 0x86, 0x06, 0x99,
+   0x9c, 0x42, 0x50, 0xf4, 0x91, 0xef, 0x98, 0x7a, 0x33, 0x54, 0x0b, 0x43, 0xed, 0xcf, 0xac, 0x62,
+   0xe4, 0xb3, 0x1c, 0xa9, 0xc9, 0x08, 0xe8, 0x95, 0x80, 0xdf, 0x94, 0xfa, 0x75, 0x8f, 0x3f, 0xa6,
+   0x47, 0x07, 0xa7, 0xfc, 0xf3, 0x73, 0x17, 0xba, 0x83, 0x59, 0x3c, 0x19, 0xe6, 0x85, 0x4f, 0xa8,
+   0x68, 0x6b, 0x81, 0xb2, 0x71, 0x64, 0xda, 0x8b, 0xf8, 0xeb, 0x0f, 0x4b, 0x70, 0x56, 0x9d, 0x35,
+   0x1e, 0x24, 0x0e, 0x5e, 0x63, 0x58, 0xd1, 0xa2, 0x25, 0x22, 0x7c, 0x3b, 0x01, 0x21, 0x78, 0x87,
+   0xd4, 0x00, 0x46, 0x57, 0x9f, 0xd3, 0x27, 0x52, 0x4c, 0x36, 0x02, 0xe7, 0xa0, 0xc4, 0xc8, 0x9e,
+   0xea, 0xbf, 0x8a, 0xd2, 0x40, 0xc7, 0x38, 0xb5, 0xa3, 0xf7, 0xf2, 0xce, 0xf9, 0x61, 0x15, 0xa1,
+   0xe0, 0xae, 0x5d, 0xa4, 0x9b, 0x34, 0x1a, 0x55, 0xad, 0x93, 0x32, 0x30, 0xf5, 0x8c, 0xb1, 0xe3,
+   0x1d, 0xf6, 0xe2, 0x2e, 0x82, 0x66, 0xca, 0x60, 0xc0, 0x29, 0x23, 0xab, 0x0d, 0x53, 0x4e, 0x6f,
+   0xd5, 0xdb, 0x37, 0x45, 0xde, 0xfd, 0x8e, 0x2f, 0x03, 0xff, 0x6a, 0x72, 0x6d, 0x6c, 0x5b, 0x51,
+   0x8d, 0x1b, 0xaf, 0x92, 0xbb, 0xdd, 0xbc, 0x7f, 0x11, 0xd9, 0x5c, 0x41, 0x1f, 0x10, 0x5a, 0xd8,
+   0x0a, 0xc1, 0x31, 0x88, 0xa5, 0xcd, 0x7b, 0xbd, 0x2d, 0x74, 0xd0, 0x12, 0xb8, 0xe5, 0xb4, 0xb0,
+   0x89, 0x69, 0x97, 0x4a, 0x0c, 0x96, 0x77, 0x7e, 0x65, 0xb9, 0xf1, 0x09, 0xc5, 0x6e, 0xc6, 0x84,
+   0x18, 0xf0, 0x7d, 0xec, 0x3a, 0xdc, 0x4d, 0x20, 0x79, 0xee, 0x5f, 0x3e, 0xd7, 0xcb, 0x39, 0x48]
+
+/-- the standard's table is the algebraic S-box of the specification (affine ∘ inversion ∘ affine), entry by entry;
+    with `sbox_alg` this also makes the generated Go table equal to the standard's table -/
+theorem sbox_standard_table :
+    stdSbox = (List.range 256).map Spec.SM4.sboxAlg ∧ Gen.SM4Const.sbox = stdSbox := by
+  have h : stdSbox = (List.range 256).map Spec.SM4.sboxAlg := by decide +kernel
+  exact ⟨h, by rw [h]; exact Proofs.SM4.sbox_alg⟩
 
 /-- the S-box is a permutation of the byte values -/
 theorem sbox_bijective :
@@ -358,6 +398,8 @@ end SMGo.Props.C05
 #print axioms SMGo.Props.C05.encrypt_decrypt
 #print axioms SMGo.Props.C05.sbox_alg
 #print axioms SMGo.Props.C05.sbox_bijective
+#print axioms SMGo.Props.C05.gfInv_spec
+#print axioms SMGo.Props.C05.sbox_standard_table
 #print axioms SMGo.Props.C05.ttables
 #print axioms SMGo.Props.C05.ck_fk
 #print axioms SMGo.Props.C05.L_xor
